@@ -71,8 +71,10 @@ struct ParM {
     int uses = 0;                    // adds (into still existing vnacal_new_t) that referenced it
 };
 struct Std { int kind = 0; int h1 = 0, h2 = 0; std::vector<cd> v1, v2; bool unknown = false; int also = -1; };   // also: unknown `other` of a correlated h1 (solved with it)   // kind 0 reflect (1-port), 1 double reflect, 2 through
+struct SlotPar { std::vector<cd> v; int twin = -1; bool unknown = false; int also = -1; int corr_other = -1; };   // corr_other: the `other` of a correlated handle is registered with it   // what a slot knows about a handle it used (survives the handle's deletion)
 struct NewM {
     vnacal_new_t *vn = nullptr, *svn = nullptr;
+    std::map<int, SlotPar> seen;    // 1-port reflect handles registered in this vnacal_new_t
     int type = 0, ports = 1, band = 0, F = 0; std::vector<double> f; cd z0;   // f = bands[band][0..F-1]
     Box box;
     std::vector<Std> stds; std::set<int> handles;
@@ -510,6 +512,7 @@ struct H {
             c.note("add_single_reflect_m(slot %d, %s)", s, hs(st.h1).c_str());
             rc = vnacal_new_add_single_reflect_m(n.vn, ptr, 1, 1, st.h1, 1);
             src = vnacal_new_add_single_reflect_m(n.svn, ptr, 1, 1, twin_of(st.h1), 1);
+            if (rc == 0 && !n.seen.count(st.h1)) { SlotPar sp; sp.v = st.v1; sp.twin = twin_of(st.h1); sp.unknown = st.unknown; sp.also = st.also; if (st.h1 >= 3 && pars.at(st.h1).kind == ParM::CORRELATED) sp.corr_other = pars.at(st.h1).other; n.seen[st.h1] = sp; }
         } else {
             bool thru = c.chance(1, 4);
             bool have_thru = false; for (auto &q : n.stds) if (q.kind == 2) have_thru = true;
@@ -682,6 +685,104 @@ struct H {
         c.label(ci == -1 ? "global-property-op" : "calibration-property-op");
     }
 
+    // ---- many parameters in ONE vnacal_new_t: its handle table grows (8 -> 16 -> 32 -> 64 buckets) ------------
+    // number of distinct handles registered in the slot (handle 0 is registered by vnacal_new_alloc itself)
+    static size_t registered(const NewM &n) { std::set<int> r = {0}; for (auto &kv : n.seen) { r.insert(kv.first); if (kv.second.corr_other >= 0) r.insert(kv.second.corr_other); } return r.size(); }
+    static bool registered_in(const NewM &n, int h) { if (n.seen.count(h)) return true; for (auto &kv : n.seen) if (kv.second.corr_other == h) return true; return false; }
+    static int table_size(size_t reg) { int t = 8; while ((size_t)t <= reg) t *= 2; return t; }
+    // one reflect standard with handle h on the 1-port slot s; h is live and usable there, or was used there before
+    // (then it keeps working in that slot even if it has been deleted from the vnacal_t since)
+    void add_reflect(int s, int h) {
+        NewM &n = nw[s];
+        bool live = h < 3 || pars.count(h);
+        SlotPar sp;
+        auto it = n.seen.find(h);
+        if (it != n.seen.end()) sp = it->second;
+        else {
+            sp.twin = twin_of(h);
+            if (h >= 3) { const ParM &p = pars.at(h); sp.unknown = p.kind == ParM::UNKNOWN || p.kind == ParM::CORRELATED; if (p.kind == ParM::CORRELATED) { sp.corr_other = p.other; if (p.other >= 3 && pars.at(p.other).kind == ParM::UNKNOWN) sp.also = p.other; } }
+            for (int k = 0; k < n.F; k++) sp.v.push_back(value_of(h, n.band, k));
+        }
+        std::vector<dcx> m(n.F); for (int k = 0; k < n.F; k++) m[k] = mkc(n.box.refl(0, k, sp.v[k]));
+        dcx *ptr[1] = {m.data()};
+        c.note("add_single_reflect_m(slot %d, %s)%s", s, hs(h).c_str(), live ? "" : "  [deleted from the vnacal_t, still in use by this slot]");
+        log.clear(); slog.clear();
+        int rc = vnacal_new_add_single_reflect_m(n.vn, ptr, 1, 1, h, 1);
+        int src = vnacal_new_add_single_reflect_m(n.svn, ptr, 1, 1, sp.twin, 1);
+        if (!live) PBT_CHECK(c, rc == 0, "C16.deleted_handle_refused_in_its_slot", "step %d: handle %d was deleted while slot %d uses it (%zu handles registered there) and must keep working in that slot, but vnacal_new_add_single_reflect_m fails: %s", step, h, s, registered(n), log.text().c_str());
+        PBT_CHECK(c, rc == 0, "C16.add_failed", "step %d: vnacal_new_add_single_reflect_m with live handle %d failed: %s", step, h, log.text().c_str());
+        PBT_CHECK(c, src == 0, "C16.harness", "shadow add failed: %s", slog.text().c_str());
+        Std st; st.kind = 0; st.h1 = h; st.v1 = sp.v; st.unknown = sp.unknown; st.also = sp.also;
+        n.stds.push_back(st); n.seen[h] = sp;
+        if (live) for (int u : {h, sp.also}) if (u >= 3 && pars.count(u) && n.handles.insert(u).second) pars.at(u).uses++;
+    }
+    int make_filler() {        // a cheap scalar (3 in 4) or vector parameter
+        if (c.chance(1, 4)) { size_t before = pars.size(); op_make_vector(); return pars.size() > before ? -2 : -1; }
+        cd z = gen_gamma();
+        log.clear();
+        int h = vnacal_make_scalar_parameter(vc, mkc(z));
+        ParM p; p.kind = ParM::SCALAR; p.gamma = z; p.n = 4; p.shadow = vnacal_make_scalar_parameter(sh, mkc(z));
+        made(h, p, "vnacal_make_scalar_parameter");
+        return h;
+    }
+    void op_fill_slot() {
+        // A. many cheap parameters; handle numbers made sparse by deleting some of them and recycling the freed indices
+        int create = (int)c.range(8, 40);
+        std::vector<int> mine;
+        for (int i = 0; i < create; i++) { int h = make_filler(); if (h >= 3) mine.push_back(h); }
+        int deleted = 0;
+        for (int h : mine) if (c.chance(1, 2) && pars.count(h) && pars.at(h).uses == 0) { log.clear(); PBT_CHECK(c, vnacal_delete_parameter(vc, h) == 0, "C16.delete_live_handle_failed", "step %d: vnacal_delete_parameter(%d) of a live handle failed: %s", step, h, log.text().c_str()); pars.erase(h); dead.insert(h); deleted++; }
+        int recycle = (int)c.range(0, 15);
+        for (int i = 0; i < recycle; i++) make_filler();
+        c.note("fill: %d cheap parameters created, %d of them deleted again, %d more created (recycled indices); %zu live handles, highest %d", create, deleted, recycle, pars.size(), pars.empty() ? 2 : pars.rbegin()->first);
+        // B. a 1-port slot
+        int s = -1;
+        { std::vector<int> v; for (int i = 0; i < 3; i++) if (nw[i].vn && nw[i].ports == 1) v.push_back(i);
+          if (v.empty() || (pick_slot(false) >= 0 && c.boolean())) { op_new_alloc(); v.clear(); for (int i = 0; i < 3; i++) if (nw[i].vn && nw[i].ports == 1) v.push_back(i); }
+          if (v.empty()) return;
+          s = v[c.draw(v.size())]; }
+        NewM &n = nw[s];
+        // C. 8..40 distinct handles into that slot
+        std::vector<int> cand;
+        for (auto &kv : pars) { if (n.seen.count(kv.first) || !usable(kv.first, n.band, n.F)) continue; const ParM &p = kv.second; if (p.kind == ParM::SCALAR || p.kind == ParM::VECTOR || p.kind == ParM::UNKNOWN || (p.kind == ParM::CORRELATED && (p.other < 3 || pars.count(p.other)))) cand.push_back(kv.first); }
+        for (int h : {2, 1, 0}) if (!n.seen.count(h)) cand.push_back(h);
+        int want = (int)c.range(8, 40);
+        for (int i = 0; i < want && !cand.empty() && n.stds.size() < 70; i++) { size_t k = c.draw(cand.size()); int h = cand[k]; cand.erase(cand.begin() + k); add_reflect(s, h); }
+        size_t reg = registered(n);
+        if (reg >= 8) c.label("table-grown:" + std::to_string(table_size(reg)));
+        // D. handles used again after the growth: live ones, and ones deleted from the vnacal_t in between
+        int reuse = (int)c.range(2, 8);
+        std::vector<int> gone;
+        for (int i = 0; i < reuse && !n.seen.empty() && n.stds.size() < 80; i++) {
+            auto it = n.seen.begin(); std::advance(it, c.draw(n.seen.size()));
+            int h = it->first;
+            bool congruent = false; for (auto &kv : n.seen) if (kv.first > h && (kv.first - h) % table_size(reg) == 0) congruent = true;
+            if (h >= 3 && pars.count(h) && c.boolean()) {
+                c.note("delete_parameter(h%d)  [in use by slot %d]", h, s);
+                log.clear();
+                PBT_CHECK(c, vnacal_delete_parameter(vc, h) == 0, "C16.delete_live_handle_failed", "step %d: vnacal_delete_parameter(%d) of a live handle failed: %s", step, h, log.text().c_str());
+                pars.erase(h); dead.insert(h); f_inuse = true; c.label("parameter-deleted-in-use");
+            }
+            bool live = h < 3 || pars.count(h);
+            if (!live) gone.push_back(h);
+            if (reg >= 8) { c.label(live ? "reuse-after-growth:live" : "reuse-after-growth:deleted"); if (congruent) c.label(live ? "reuse-after-growth:live,lower-of-two-in-one-bucket" : "reuse-after-growth:deleted,lower-of-two-in-one-bucket"); }
+            add_reflect(s, h);
+        }
+        // E. ... and such a deleted handle is refused by a vnacal_new_t that never used it
+        if (!gone.empty()) for (int t = 0; t < 3; t++) if (t != s && nw[t].vn && nw[t].ports == 1 && !registered_in(nw[t], gone[0])) {
+            std::vector<dcx> m(nw[t].F, mkc(0.1, 0.2)); dcx *ptr[1] = {m.data()};
+            c.note("add_single_reflect_m(slot %d, deleted handle %d)  [never used there: refused]", t, gone[0]);
+            log.clear();
+            int rc = vnacal_new_add_single_reflect_m(nw[t].vn, ptr, 1, 1, gone[0], 1);
+            PBT_CHECK(c, rc == -1, "C16.deleted_handle_accepted_elsewhere", "step %d: handle %d is deleted and was never used by slot %d, but vnacal_new_add_single_reflect_m accepts it", step, gone[0], t);
+            c.label("deleted-handle-refused-elsewhere");
+            break;
+        }
+        check_params("fill");
+        // F. the usual oracles afterwards: solve, store, recognise the contents, compare with the clone without deletions
+        if (determined(n) && c.chance(3, 4)) { op_solve(s); op_add_calibration(s); }
+    }
+
     // the usual life of a calibration in one go: allocate (or take a slot), add standards until the
     // set determines the error terms, solve, store
     void op_whole_calibration() {
@@ -706,7 +807,7 @@ struct H {
         size_t mean = (size_t)(4 + c.size / 2);
         for (size_t nops = 0; (c.mark(), c.more(nops, mean, 100)); nops++) {
             step++;
-            int op = c.weighted({5, 3, 3, 2, 5, 4, 10, 6, 6, 5, 8, 2, 2, 8});
+            int op = c.weighted({5, 3, 3, 2, 5, 4, 10, 6, 6, 5, 8, 2, 2, 8, 3});    // new alternatives go to the END: recorded tapes keep their meaning
             bool cal_op = false, par_op = false;
             switch (op) {
             case 0: op_make_scalar(); par_op = true; break;
@@ -722,7 +823,8 @@ struct H {
             case 10: op_property(); break;
             case 11: op_new_free(); par_op = true; break;
             case 12: op_probe_value(); break;
-            default: op_whole_calibration(); cal_op = par_op = true; break;
+            case 13: op_whole_calibration(); cal_op = par_op = true; break;
+            default: op_fill_slot(); cal_op = par_op = true; break;
             }
             check_tables("after op");
             if (par_op) check_params("after op");
